@@ -2045,6 +2045,8 @@ using currency = f8String;
 using Exchange = f8String;
 using Language = f8String;
 using XMLData = f8String;
+using pattern = f8String;
+using Tenor = f8String;
 using data = f8String;
 
 //-------------------------------------------------------------------------------------------------
